@@ -4,6 +4,7 @@ from __future__ import annotations
 
 import gc
 import re
+import sys
 import threading
 import time
 
@@ -34,6 +35,8 @@ def shards(tier, seed):
     for i in range(6 if tier == "quick" else 12):
         out.append({"kind": "ids", "mode": ("sync", "noise", "pct")[i % 3], "runs": 20 if tier == "quick" else 2000})
     out.append({"kind": "ids_sweep", "ks": [1, 2, 3] if tier == "quick" else [1, 2, 3, 5, 8]})
+    for i in range(1 if tier == "quick" else 4):
+        out.append({"kind": "late_callback", "reps": 2 if tier == "quick" else 60})
     for i in range(3 if tier == "quick" else 6):
         out.append({"kind": "transfer", "runs": 100 if tier == "quick" else 8000})
     for i in range(5 if tier == "quick" else 10):
@@ -44,7 +47,8 @@ def shards(tier, seed):
 
 
 def run_shard(spec):
-    return {"ids": run_ids, "ids_sweep": run_ids, "transfer": run_transfer, "cycles": run_cycles, "real": run_real}[spec["kind"]](spec)
+    return {"ids": run_ids, "ids_sweep": run_ids, "transfer": run_transfer, "cycles": run_cycles, "real": run_real,
+            "late_callback": run_late_callback}[spec["kind"]](spec)
 
 
 # ---------------------------------------------------------------------------
@@ -162,6 +166,97 @@ def run_ids(spec):
         res.sample({"kind": spec["kind"], "runs": len(todo)})
     finally:
         pre.uninstall()
+    return res
+
+
+def run_late_callback(spec):
+    """setcallback() on one side while the other side ends the conversation (close, close with error, drop): wherever the
+    two meet, the callback gets its endmarker exactly once and no entry is left behind"""
+    import io
+
+    from execnet import gateway_base as gb
+    from vlib import chanlab
+    from vlib import imodel
+    from vlib import pairs
+
+    res = Result()
+    rng = core.rng_for("C18l", spec["tier"], spec["seed"], spec["shard"])
+    pre = imodel.Preempt(core.REPO_SRC)
+    pre.install()
+    lab = chanlab.Lab("pipe", rng.getrandbits(32))
+    try:
+        lines = imodel.function_lines(gb.Channel.setcallback)
+        res.info["setcallback_sweep_lines"] = len(lines)
+        todo = [("sweep", ln) for ln in lines for _ in range(spec["reps"])] + [("noise", None)] * (30 * spec["reps"])
+        base = tables(lab)
+        for i, (mode, ln) in enumerate(todo):
+            if res.enough():
+                break
+            lc, rc = lab.pair_newchannel_local() if i % 2 else tuple(reversed(lab.pair_newchannel_remote()))
+            side = lc.gateway._channelfactory
+            cid = lc.id
+            nitems = rng.choice((0, 1, 3))
+            for j in range(nitems):
+                rc.send(j)
+            pairs.wait_until(lambda: lc._items.qsize() >= nitems, 10.0)
+            ending = rng.choice(("close", "close_error", "drop"))
+            got: list = []
+            if mode == "sweep":
+                pre.restart()
+                pre.set_sweep(ln[0], ln[1], 1, stall=0.08)
+            else:
+                pre.set_noise(rng.getrandbits(32), rng.choice((0.05, 0.3)))
+            real_stderr, sys.stderr = sys.stderr, io.StringIO()
+            try:
+                def end_it():
+                    nonlocal rc
+                    time.sleep(rng.choice((0.0, 0.01, 0.03)))
+                    if ending == "close":
+                        rc.close()
+                    elif ending == "close_error":
+                        rc.close("the sender gives up")
+                    else:
+                        rc = None
+                        gc.collect()
+
+                t = threading.Thread(target=end_it)
+                t.start()
+                refused = None
+                try:
+                    lc.setcallback(got.append, endmarker="end")
+                except OSError as e:
+                    refused = e  # (the conversation had ended already: nothing is registered then)
+                t.join(20)
+                pre.off()
+                if mode == "sweep" and pre.fired:
+                    res.count("setcallback_sweep_fired")
+                if refused is None:
+                    pairs.wait_until(lambda: "end" in got, 10.0)
+                    time.sleep(0.005)
+                forgotten = pairs.wait_until(lambda: cid not in side._callbacks, 3.0)
+            finally:
+                sys.stderr = real_stderr
+            res.count("setcallback_vs_end_runs")
+            res.case(core.h64("late-callback", mode, ln, i % 2, ending, nitems))
+            label = f"{mode} {ln[1] if ln else ''}: {nitems} items queued, peer ends with {ending} while setcallback() runs"
+            if refused is None and got != list(range(nitems)) + ["end"]:
+                res.violation("endmarker-lost-when-close-meets-setcallback" if "end" not in got else "callback-transcript-wrong-when-close-meets-setcallback",
+                              f"{label}: callback saw {got!r}")
+            if not forgotten:
+                res.violation("channel-table-grew:callbacks", f"{label}: the callback entry of the ended conversation is still registered")
+            try:
+                lc.close()
+            except OSError:
+                pass
+            del lc
+            rc = None
+            gc.collect()
+        if not chanlab.quiesce(lambda: tables(lab) == base, 5.0):
+            res.violation("channel-table-grew:callbacks" if tables(lab)[1] != base[1] or tables(lab)[3] != base[3] else "channel-table-grew:channels",
+                          f"after {len(todo)} setcallback-meets-end runs: {base} -> {tables(lab)}")
+    finally:
+        pre.uninstall()
+        lab.close()
     return res
 
 
